@@ -172,6 +172,40 @@ fn families(thorough: bool) -> Vec<Family> {
         }
     }
     fams.push(Family { name: "many-players", rule: "4..=10 players, each with an own combo; a combo shared by all (n<=6) or every third player; one combo colliding with the neighbour and one on the flop", configs: v, exact_prob: true, exhaustive: false });
+    // weights at the edges of f32: exactly 0, products that are subnormal or underflow
+    let mut v = vec![];
+    for wset in [[0.0f32, 1e-20, 1.0], [f32::MIN_POSITIVE, 1e-30, 0.5], [0.0, 0.0, 1.0]] {
+        for f in &FLOPS8[2..4] {
+            let a = alphabet(f);
+            for &m0 in &small_masks(8, 2) {
+                for &m1 in &small_masks(8, 2) {
+                    v.push(cfg(*f, vec![subset_range(&a, m0, 0, &wset), subset_range(&a, m1, 1, &wset)]));
+                }
+            }
+        }
+    }
+    fams.push(Family { name: "extreme-weights", rule: "two players, subset pairs of size <= 2, weights from {0, 1e-20, 1}, {f32::MIN_POSITIVE, 1e-30, 0.5}, {0, 0, 1}: a deal is yielded whatever its probability (zero, subnormal or underflowing products included)", configs: v, exact_prob: false, exhaustive: true });
+    // every deck index: one player holding D[i] D[j] for every i < j; two players holding neighbours
+    let mut v = vec![];
+    {
+        let f = FLOPS8[3];
+        let d = deck_without(&f);
+        for i in 0..49usize {
+            for j in (i + 1)..49usize {
+                if thorough || (i + j) % 4 == 0 || j >= 45 || i <= 1 {
+                    v.push(cfg(f, vec![vec![(Combo::new(d[i], d[j]), 1.0)]]));
+                }
+            }
+        }
+        for i in 0..48usize {
+            for j in 0..48usize {
+                if thorough || (i + j) % 3 == 0 || i >= 44 || j >= 44 {
+                    v.push(cfg(f, vec![vec![(Combo::new(d[i], d[i + 1]), 0.5)], vec![(Combo::new(d[j], d[j + 1]), 1.0)]]));
+                }
+            }
+        }
+    }
+    fams.push(Family { name: "deck-sweep", rule: "one player holding D[i] D[j] for every pair of deck indexes (every fourth plus both deck ends in quick), two players holding D[i]D[i+1] and D[j]D[j+1] for all i, j (every third plus the deck end in quick): every deck index meets every position", configs: v, exact_prob: true, exhaustive: thorough });
     // zero players
     fams.push(Family { name: "zero-players", rule: "no players: one (empty) showdown per position", configs: FLOPS8[..2].iter().map(|f| cfg(*f, vec![])).collect(), exact_prob: true, exhaustive: true });
     if thorough {
@@ -262,6 +296,7 @@ pub fn run(tier: &str) -> i32 {
             rep.sample(json!({"family": fam.name, "flop": cards_text(&c.flop), "ranges": c.label}));
         }
     }
+    huge_tables(&mut rep, thorough);
     rep.set("explanation".into(), json!("states = odometer states (1176 positions x product of range sizes) the real iterator walks through; transitions = next() calls made; each configuration's complete yield is compared as a multiset per position with the reference enumerator"));
     rep.bound("ranges are subsets of an 8-combo alphabet built to collide, plus prefixes/suffixes of the 1326 combos; not all 2^1326 ranges");
     rep.bound(if thorough { "flops: 8 structured flops for the subset families, all 22,100 for the single-combo/full-alphabet family" } else { "flops: 8 structured flops (all 22,100 in thorough)" });
@@ -269,7 +304,113 @@ pub fn run(tier: &str) -> i32 {
     rep.finish()
 }
 
+/// tables whose product of range sizes exceeds 2^64: only a prefix of the enumeration can be taken,
+/// every yielded showdown must be a legal deal, no deal twice, and the prefix must be as long as asked
+fn huge_tables(rep: &mut Report, thorough: bool) {
+    use espada::evaluator::FlopExhaustiveEvaluator;
+    use espada::hand_range::HandRange;
+    use vlib::report::catch;
+    let flop = FLOPS8[3];
+    let deck = deck_without(&flop);
+    let all = all_combos();
+    let k_take: usize = if thorough { 20_000 } else { 3_000 };
+    let tables: Vec<(usize, usize)> = if thorough { vec![(8, 256), (7, 600), (10, 300), (9, 255), (8, 257), (10, 1000), (16, 16)] } else { vec![(8, 256), (7, 600), (10, 300)] };
+    let mut n_tables = 0u64;
+    let mut yielded_total = 0u64;
+    for (n, size) in tables {
+        // ranges: `size` consecutive combos (in card order, not touching the flop or the first two deck cards),
+        // shifted per player until the combo the evaluator will try first is disjoint from the earlier players' first combos
+        let usable: Vec<Combo> = all.iter().cloned().filter(|c| !flop.contains(&c.0) && !flop.contains(&c.1) && c.0 != deck[0] && c.1 != deck[0] && c.0 != deck[1] && c.1 != deck[1]).collect();
+        let mut ranges: Vec<HandRange> = vec![];
+        let mut firsts: Vec<Combo> = vec![];
+        let mut offset = 0usize;
+        let mut ok = true;
+        for _p in 0..n {
+            let mut tries = 0;
+            loop {
+                let r: HandRange = (0..size).map(|i| (usable[(offset + i) % usable.len()].card_pair(), 1.0f32)).collect();
+                let first = r.card_pairs().iter().next().map(|(cp, _)| Combo::of(cp)).unwrap();
+                let clash = firsts.iter().any(|f| f.0 == first.0 || f.0 == first.1 || f.1 == first.0 || f.1 == first.1);
+                offset += 37;
+                tries += 1;
+                if !clash {
+                    firsts.push(first);
+                    ranges.push(r);
+                    break;
+                }
+                if tries > 400 {
+                    ok = false;
+                    break;
+                }
+            }
+        }
+        if !ok {
+            continue;
+        }
+        n_tables += 1;
+        let rs = ranges.clone();
+        // bounded work: the take() below can only be slow if a long blocked run precedes the first deal, which the
+        // construction above excludes for all players but the last two
+        let r = catch(move || {
+            let ev = FlopExhaustiveEvaluator::new(&board_opt(&flop), &rs);
+            let mut out: Vec<Vec<Combo>> = vec![];
+            let mut bad: Option<String> = None;
+            for sd in ev.into_iter().take(k_take) {
+                let mut seen = 0u64;
+                for c in sd.board().iter() {
+                    seen |= 1u64 << idx_of(c);
+                }
+                let mut combos = vec![];
+                for (i, p) in sd.players().iter().enumerate() {
+                    let cb = Combo::of(&p.hole_cards());
+                    if seen & (1u64 << cb.0) != 0 || seen & (1u64 << cb.1) != 0 {
+                        bad = Some("a card appears twice in a showdown".into());
+                    }
+                    seen |= (1u64 << cb.0) | (1u64 << cb.1);
+                    if !rs[i].card_pairs().contains_key(&p.hole_cards()) {
+                        bad = Some(format!("player {} holds {} which is not in the range", i, cb.text()));
+                    }
+                    combos.push(cb);
+                }
+                if sd.probability() != 1.0 {
+                    bad = Some("probability is not the product of the weights".into());
+                }
+                out.push(combos);
+            }
+            (out, bad)
+        });
+        let label = format!("{} players x {} combos", n, size);
+        let obs = match r {
+            Err(e) => Some(json!({"panic": e})),
+            Ok((out, bad)) => {
+                yielded_total += out.len() as u64;
+                let mut sorted = out.clone();
+                sorted.sort();
+                sorted.dedup();
+                if let Some(b) = bad {
+                    Some(json!({"problem": b}))
+                } else if sorted.len() != out.len() {
+                    Some(json!({"problem": "the same deal was yielded twice"}))
+                } else if out.len() < k_take && ok {
+                    Some(json!({"problem": format!("the enumeration ended after {} showdowns although far more legal deals exist", out.len())}))
+                } else {
+                    None
+                }
+            }
+        };
+        if let Some(o) = obs {
+            rep.violation(Violation { key: format!("flop={} table={}", cards_text(&flop), label), sub: "huge-tables".into(), case: json!({"players": n, "size": size}), expected: json!(format!("the first {} showdowns are legal, distinct deals", k_take)), observed: o });
+        }
+        rep.sample(json!({"family": "huge-tables", "table": label, "take": k_take}));
+    }
+    rep.machine(yielded_total.max(1), yielded_total.max(1), n_tables);
+    rep.sub("huge-tables", "tables whose product of range sizes exceeds 2^64 (8x256 = 2^64 exactly, 7x600, 10x300, ...): the first K showdowns are taken; each must be a legal deal of the players' own ranges, none twice, and K must be reached. Ranges are shifted so that the combos the evaluator tries first do not collide (keeps the prefix cheap). distinct_nontrivial = showdowns inspected", n_tables, yielded_total, false, json!({"take": k_take}));
+}
+
 pub fn replay(case: &Value) -> Value {
+    if case.get("players").is_some() {
+        return json!({"note": "huge-table cases are re-run by ./check C02 quick (sub-check huge-tables)", "case": case});
+    }
     let c = Config::from_json(&case["config"]);
     let exact = case["exact_prob"].as_bool().unwrap_or(true);
     let (bad, calls, expected) = check_config(&c, exact);
